@@ -174,10 +174,15 @@ func runMain(dir string, args []string, stdin []byte, limit time.Duration) *main
 	case <-time.After(limit):
 		res.TimedOut = true
 	}
-	os.Args, os.Stdin, os.Stdout, os.Stderr, exit = oldArgs, oldIn, oldOut, oldErr, oldExit
 	if res.TimedOut {
+		// the abandoned goroutine goes on running main(): when it gets to call exit (for instance
+		// because its files were closed under it) it must not end this process - the caller
+		// writes its summary and ends the process itself. The hook parks it for good.
+		exit = func(int) { select {} }
+		os.Args, os.Stdin, os.Stdout, os.Stderr = oldArgs, oldIn, oldOut, oldErr
 		return res
 	}
+	os.Args, os.Stdin, os.Stdout, os.Stderr, exit = oldArgs, oldIn, oldOut, oldErr, oldExit
 	// main() closes the stdout it wrote to: read the files back by name
 	res.Stdout, _ = os.ReadFile(outF.Name())
 	eb, _ := os.ReadFile(errF.Name())
